@@ -106,6 +106,8 @@ static int pfx_root_throw(struct uprobe *uprobe, struct upipe *upipe, int event,
     struct pfx *pfx = container_of(uprobe, struct pfx, root);
     if (event != UPROBE_LOG && event != UPROBE_READY && event != UPROBE_DEAD)
         pfx->root_unhandled++;
+    if (event == UPROBE_PROVIDE_REQUEST)
+        pfx->root_provide_requests++;
     return UBASE_ERR_UNHANDLED;
 }
 
